@@ -11,7 +11,7 @@ NAMESPACES = {"LccModel/Props/C11.lean": "LccModel.C11", "LccModel/Props/C11Even
 DRIVER = "drivers/Run.lean"
 TRUSTED_BASE = RUN_TRUSTED + ["decision table of the real RunContext.is_task_to_be_skipped (harness/props/_skiptable.py), re-proved by `decide +kernel` on every run", "the re-raise of the pending failure at the end of _run_suites (6 lines) is not modelled; the oracle checks the exception the caller sees", "event manager: hand-written model Model/EventManager.lean of events.py AsyncEventManager (fire / _handler_loop / handle_events), tied by the em stream (harness/props/_em.py, drivers/EM.lean) and by the extracted bound of the real queue (table emQueueBound, obligation em_queue_is_unbounded); queue.Queue and thread scheduling are represented by the model's interleaving of `fire` and `handle` steps"]
 ASSUMPTIONS = RUN_ASSUMPTIONS + []
-RULE = 'generated project (harness/run/gen.py) × nb_threads 1..8 × gate strategy (off/fifo/lifo/random) forcing completion orders; non-trivial = ≥ 2 tests, ≥ 1 body entered, ≥ 8 events; distinct = hash of the case (project + schedule parameters) × (25 %: a keyboard interrupt in the same run, before or after the fault) × backend fault at a random event index k with exception class in {Exception, KeyError, OSError, UnicodeEncodeError, custom, and three classes whose constructors reject a single message}; em stream: n ∈ 0..3000 events fired by 1..3 producers into the real AsyncEventManager, 0..2 failing handlers (non-trivial = ≥ 2 events)'
+RULE = 'generated project (harness/run/gen.py) × nb_threads 1..8 × gate strategy (off/fifo/lifo/random) forcing completion orders; non-trivial = ≥ 2 tests, ≥ 1 body entered, ≥ 8 events; distinct = hash of the case (project + schedule parameters) × (25 %: a keyboard interrupt in the same run, before or after the fault) × backend fault at a random event index k with exception class in {Exception, KeyError, OSError, UnicodeEncodeError, custom, three classes whose constructors reject a single message, StopIteration, StopAsyncIteration; 12 % of the faults: GeneratorExit / SystemExit / KeyboardInterrupt raised inside the handler}; em stream: n ∈ 0..3000 events fired by 1..3 producers into the real AsyncEventManager, 0..2 failing handlers (non-trivial = ≥ 2 events)'
 EXPLANATION = "Event manager (Props/C11Events): on an unbounded queue no producer and no exit of handle_events ever blocks, handlers see a prefix of the fired events, nothing is handled after the first failing event and that event is the pending failure — for every failure predicate, event count and interleaving; the unboundedness of the real queue is an extracted fact re-checked on every run, and bounded_queue_can_block shows it is necessary. Termination and exactly-once handling whatever the context answers (Lean theorems for every graph / worker count / interleaving), 'pending failure ⇒ every not-yet-started task is skipped' stated outright and tied to the code by the extracted table; every real run with a failing backend is replayed on the composed model (handled-index order, pending-failure visibility) and the oracle checks the raised error text, body starts after the fault and teardowns."
 
 
@@ -48,7 +48,8 @@ class Run(PropRunStream):
     quick_seconds = 60
     p_fault = 0.7
     p_both = 0.25               # a backend failure and a keyboard interrupt in the same run, in either order
-    corpus = [witness("D17 "), witness("D10 "), W2.EMPTY_BACKEND_ERROR, W2.FAULT_THEN_INTERRUPT, W2.INTERRUPT_THEN_FAULT]
+    p_base_fault = 0.12         # ... of which: GeneratorExit / SystemExit / KeyboardInterrupt raised inside the handler (D42)
+    corpus = [witness("D17 "), witness("D10 "), W2.EMPTY_BACKEND_ERROR, W2.FAULT_THEN_INTERRUPT, W2.INTERRUPT_THEN_FAULT] + W2.PROTOCOL_FAULTS
 
 
 def streams(ctx):
